@@ -83,11 +83,11 @@ add('C14', ['C14'], ['corr.serializer', 'corr.pipeline'],
 add('C15', ['C15', 'C15Inline'], PIPE,
     'Lean 4 proofs on the block model: the reference-definition recogniser accepts every title spelling, a definition adds exactly one map entry and no node, position independence, label normalisation',
     'PARTIAL: the rendering of the resolved link (inline stage) rests on correspondence where not proved.')
-add('C16', ['C16Tables', 'C16Triggers', 'C16AttrList', 'C16Fenced', 'C16BlockExt'],
+add('C16', ['C16Tables', 'C16Triggers', 'C16AttrList', 'C16Fenced', 'C16BlockExt', 'C16Order'],
     ['corr.tables', 'corr.triggers', 'corr.attrlist', 'corr.code', 'corr.blockext', 'corr.dispatch'],
     'Lean 4 proofs: table cell splitting/row width/alignment theorems, attribute-list print/parse round trip, entry recognisers of every extension need their trigger + dispatcher inertness theorem (non-interference), fenced-code inertness',
     'PARTIAL: md_in_html, smarty, codehilite, meta, legacy_* are not modelled (search only); documented rendering is proved per component, compositions by correspondence/search.')
-add('C17', ['C17'], ['corr.toc'],
+add('C17', ['C17', 'C16Order'], ['corr.toc'],
     'Lean 4 proofs: unique() fresh + terminating (pigeonhole), assigned ids pairwise distinct, nest_toc_tokens flatten/outline theorems for all level sequences, footnote id bookkeeping (refs resolve, k refs → k distinct back-links)',
     'slugify and inline rendering of titles are parameters (theorems hold for every slugify); F-C17-1/2 are kernel-checked counterexamples.')
 add('C18', ['C18', 'C18Stash'], ['corr.dispatch', 'corr.inline', 'corr.registry'],
